@@ -164,6 +164,36 @@ func stallPeer(kind, point, addr string, first []byte) (func(), error) {
 		}
 		cl := func() { _ = c.Close() }
 		var q []byte
+		if point == "junk" {
+			// datagrams a resolver, a scanner or a broken client can send: several questions, none, root names,
+			// counts without bodies, truncated headers, compression loops, random bytes
+			mk := func(names ...string) []byte {
+				m := new(mdns.Msg)
+				m.Id = 4711
+				m.RecursionDesired = true
+				for _, n := range names {
+					m.Question = append(m.Question, mdns.Question{Name: n, Qtype: mdns.TypeA, Qclass: mdns.ClassINET})
+				}
+				b, _ := m.Pack()
+				return b
+			}
+			junk := [][]byte{
+				mk(".", "."), mk("a.", "b."), mk("example.org.", "example.org.", "example.org."), mk(), mk("."),
+				mk("x.example.org.", "."), mk("caaaa.example.org.", "vaaaa.example.org."),
+				{0x12, 0x34, 0x01, 0x00, 0xff, 0xff, 0x00, 0x00, 0x00, 0x00, 0x00, 0x00},
+				{0x12, 0x34, 0x01, 0x00, 0x00, 0x02, 0, 0, 0, 0, 0, 0, 0x00, 0x00, 0x01, 0x00, 0x01},
+				{0x12, 0x34, 0x01, 0x00, 0x00, 0x01, 0, 0, 0, 0, 0, 0, 0xc0, 0x0c, 0x00, 0x01, 0x00, 0x01},
+				{0x12, 0x34}, {}, {0xff, 0xff, 0xff, 0xff, 0xff, 0xff, 0xff, 0xff, 0xff, 0xff, 0xff, 0xff, 0xff},
+				append(mk("example.org."), 0xde, 0xad, 0xbe, 0xef),
+			}
+			junkSeq++
+			_ = c.SetDeadline(time.Now().Add(1 * time.Second))
+			_, _ = c.Write(junk[junkSeq%len(junk)])
+			buf := make([]byte, 4096)
+			_, _ = c.Read(buf)
+			_ = c.SetDeadline(time.Time{})
+			return cl, nil
+		}
 		if point == "version" {
 			ser := commands.Serializer{Domain: "example.org"}
 			m, e := ser.EncodeDnsRequestWithParams(&commands.VersionRequest{ClientVersion: sadns.ProtocolVersion}, dnsmessage.TypeCNAME, enc.Base32Encoding)
@@ -349,6 +379,7 @@ func (stallComp) Gen(r *Rand, tier string, emit func(string)) {
 	emit("tcp hangup 6")
 	emit("unix httpget 5")
 	emit("dns version 3")
+	emit("dns junk 14")
 	emit("dns other 2")
 	emit("tcp connect 1 12 sf")
 	if tier == "thorough" {
